@@ -13,7 +13,7 @@ ENV = dict(os.environ, PATH="/opt/veriftools/go1.26.8/bin:" + os.environ["PATH"]
            GOFLAGS="-mod=mod", GOPROXY="off", GOWORK="off")
 FLAKY = {"TestCodecConnWriteNext", "TestCodecConnReadNext", "TestCodecConnAsyncWriteNext", "TestCodecConnAsyncReadNext",
          "TestTimerScheduleRepeatingAndCancel", "TestTimerScheduleRepeatingConsecutively", "TestUDPPeerIPv6_Addresses",
-         "TestCloseFramePayloadCodec", "TestMaxMsgSizeAfterHandshake", "TestRead"}
+         "TestCloseFramePayloadCodec", "TestClientReconnectOnFailedRead", "TestMaxMsgSizeAfterHandshake", "TestRead"}
 
 
 def sh(cmd, cwd=None, timeout=900):
@@ -22,11 +22,10 @@ def sh(cmd, cwd=None, timeout=900):
 
 
 def pkg_dir_of(meta_demo, test_src):
-    for d in ["codec/websocket", "codec/frame", "multicast", "bytes", "internal", "net/ipv4", "util"]:
-        if d in meta_demo:
-            return d
     m = re.search(r"^package\s+(\w+)", test_src, re.M)
     pk = m.group(1) if m else "sonic"
+    if pk in ("sonic", "sonic_test"):
+        return "."
     return {"websocket": "codec/websocket", "websocket_test": "codec/websocket", "frame": "codec/frame", "frame_test": "codec/frame",
             "multicast": "multicast", "multicast_test": "multicast", "bytes": "bytes", "bytes_test": "bytes",
             "internal": "internal", "ipv4": "net/ipv4", "util": "util"}.get(pk, ".")
